@@ -56,11 +56,11 @@ def load(reg):
     reg.define("VALID_EVENT(e)", "not isnan(e._absolute_time)")
     reg.define("ENTRIES_WF(a)",
                "forall('e:%s', implies(contains(a, e), e == ENTRY(e[3]) and not isnan(e[0])))"
-               " and forall('e1:%s, e2:%s', implies(contains(a, e1) and contains(a, e2) and e1[2] == e2[2], e1 == e2))"
-               " and distinct_ent(a)" % (ENT_S, ENT_S, ENT_S))
+               " and distinct_ent(a)" % ENT_S)
     reg.define("WF(l)", "is_heap(l._event_list) and ENTRIES_WF(l._event_list)")
     # minimality of the root (consequence of is_heap, lemma heap_root_min)
-    reg.define("ROOT_MIN(a)", "forall('i:int', implies(0 <= i and i < len(a), le_e(a[0], a[i])))")
+    reg.define("ROOT_MIN(a)", "forall('i:int', implies(0 <= i and i < len(a), le_e(a[0], a[i])))"
+               " and forall('m:%s', implies(contains(a, m), le_e(a[0], m)))" % ENT_S)
 
     # ---- dependency contracts: heapq
     reg.trust("heapq.heappush(a,x): requires is_heap(a); ensures is_heap(a'), len(a')=len(a)+1, "
@@ -86,6 +86,9 @@ def load(reg):
     reg.scoped_axiom("heap", z3.ForAll([_s, _i], z3.Implies(z3.And(0 <= _i, _i < z3.Length(_s)), mem(_s, _s[_i])),
                                        patterns=[_s[_i]]), note)
     reg.scoped_axiom("heap", z3.ForAll([_x], z3.Not(mem(z3.Empty(SE), _x)), patterns=[mem(z3.Empty(SE), _x)]), note)
+    idx_of = reg.ufun("idx_ent", SE, TE, z3.IntSort())        # a position of a member (choice function)
+    reg.scoped_axiom("heap", z3.ForAll([_s, _x], z3.Implies(mem(_s, _x), z3.And(0 <= idx_of(_s, _x), idx_of(_s, _x) < z3.Length(_s),
+                                                                             _s[idx_of(_s, _x)] == _x)), patterns=[mem(_s, _x)]), note)
     reg.scoped_axiom("heap", z3.ForAll([_s, _x], z3.Implies(mem(_s, _x), z3.Length(_s) > 0), patterns=[mem(_s, _x)]), note)
     reg.scoped_axiom("heap", distinct(z3.Empty(SE)), note)
     reg.scoped_axiom("heap", z3.ForAll([_s, _x], z3.Implies(z3.And(distinct(_s), mem(_s, _x)),
@@ -189,8 +192,8 @@ def heap_root_min(a, i):
                  pure=True, props=C01)
     reg.contract("EventListHeap.add", params={"event": "ref:SimEvent"},
                  requires=["WF(self)", "VALID_EVENT(event)",
-                           # a fresh event: its id is not used by any pending entry
-                           "forall('e:%s', implies(contains(%s, e), e[2] != event._id))" % (ENT_S, L)],
+                           # the event is not pending already
+                           "not contains(%s, ENTRY(event))" % L],
                  ensures=["WF(self)", "len(%s) == len(%s) + 1" % (L, L0),
                           "forall('e:%s', iff(contains(%s, e), contains(%s, e) or e == ENTRY(event)))" % (ENT_S, L, L0)],
                  labels={"WF(self)": "WF"},
@@ -199,17 +202,17 @@ def heap_root_min(a, i):
                  requires=["WF(self)"],
                  ensures=["iff(result is None, len(%s) == 0)" % L,
                           # the event handed out is the minimum of all pending entries
-                          "implies(len(%s) > 0, result == %s[0][3] and ROOT_MIN(%s))" % (L, L, L)],
+                          "implies(len(%s) > 0, result == %s[0][3] and contains(%s, %s[0]) and ROOT_MIN(%s))" % (L, L, L, L, L)],
                  pure=True, props=C01, axiom_sets=AX)
     reg.contract("EventListHeap.pop_first", params={}, returns="ref:SimEvent?",
                  requires=["WF(self)"],
                  ensures=["WF(self)", "iff(result is None, len(%s) == 0)" % L0,
                           "implies(len(%s) == 0, len(%s) == 0)" % (L0, L),
-                          "implies(len(%s) > 0, result == %s[0][3]"
-                          " and forall('i:int', implies(0 <= i and i < len(%s), le_e(%s[0], %s[i])))"
+                          "implies(len(%s) > 0, result == %s[0][3] and contains(%s, %s[0])"
+                          " and forall('m:%s', implies(contains(%s, m), le_e(%s[0], m)))"
                           " and len(%s) == len(%s) - 1"
                           " and forall('e:%s', iff(contains(%s, e), contains(%s, e) and e != %s[0])))"
-                          % (L0, L0, L0, L0, L0, L, L0, ENT_S, L, L0, L0)],
+                          % (L0, L0, L0, L0, ENT_S, L0, L0, L, L0, ENT_S, L, L0, L0)],
                  labels={"WF(self)": "WF"},
                  modifies=["self._event_list"], props=C01, axiom_sets=AX)
     reg.contract("EventListHeap.contains", params={"event": "ref:SimEvent"}, returns="bool",
